@@ -118,6 +118,20 @@ func bases() []scenario {
 		add(k, 2, false)
 		add(k, 2, true)
 	}
+	// an attestation sent by the token bridge whose token contract cannot be asked (every metadata query fails, in
+	// one of several ways): what is attested cannot be compared with what the contract reports - never forwarded
+	for _, tk := range []string{"second-failed", "third-failed", "all-failed", "two-results", "wrong-arity", "wrong-type", "api-error"} {
+		for _, mainnet := range []bool{false, true} {
+			m := mkMsg("attest-matching", 2)
+			st := []alphh.Step{{Op: "emit", Msg: &m, Block: 1, Height: 11}, {Op: "evtick"}, {Op: "htick"}, {Op: "height+", Height: 2}, {Op: "clock", Sec: 33}, {Op: "htick"}, {Op: "reobs", Tx: m.Tx}, {Op: "htick"}}
+			net := "testnet"
+			if mainnet {
+				net = "mainnet"
+			}
+			out = append(out, scenario{Name: fmt.Sprintf("attest-token-answers-%s/%s", tk, net), Mainnet: mainnet, Steps: st,
+				Tokens: map[string]alphh.TokenAnswer{alphh.AddressOf(tokenID): {Kind: tk, Symbol: "SYM", Name: "Token name", Decimals: 8}}})
+		}
+	}
 	// a transaction that carries BOTH a legitimate message and a look-alike emitted by another contract
 	{
 		m := mkMsg("transfer", 2)
